@@ -90,6 +90,14 @@ auto_decode(void *coder_ptr, const lzma_allocator *allocator,
 				|| (coder->flags & LZMA_CONCATENATED) == 0)
 			return ret;
 
+		// The .xz and .lz decoders handle LZMA_CONCATENATED
+		// themselves. For example, the .lz decoder may return
+		// LZMA_STREAM_END without consuming all input if the last
+		// member is followed by data that isn't in the .lz format.
+		// It is LZMA_Alone if get_check is NULL.
+		if (coder->next.get_check != NULL)
+			return ret;
+
 		coder->sequence = SEQ_FINISH;
 		FALLTHROUGH;
 	}
